@@ -317,7 +317,7 @@ def standard_main(prop, modules, theorems, profile, n_quick, n_thorough, assumpt
     if replay:
         obj = json.load(open(replay))
         case = obj.get("case") or (obj.get("first_disagreement") or {}).get("case")
-        if isinstance(case, dict) and case.get("free") and extra_run is not None:
+        if isinstance(case, dict) and (case.get("free") or case.get("rangelists")) and extra_run is not None:
             digests = set()
             extra_run(ck, tier, [case])
         elif not isinstance(case, dict) or "classes" not in case:
@@ -344,7 +344,7 @@ def standard_main(prop, modules, theorems, profile, n_quick, n_thorough, assumpt
         for f in cases:
             for _ in range(25):
                 scn = json.loads(json.dumps(f["case"]))
-                if scn.get("free"):
+                if scn.get("free") or scn.get("rangelists"):
                     for c in scn["calls"]:
                         c["seed"] = rng.randrange(1 << 30)
                     extra_free.append(scn)
